@@ -2,7 +2,8 @@
    reduces in), numbers the action invocations and
    - ORACLE: evaluates every reference from what it *denotes* (the occurrences of the original rule the
      generator attached to it): the first / last denoted occurrence that is present in this derivation,
-     nil / -1 when none is -- no positions, no name tables, no stack slots;
+     nil / -1 when none is -- no positions, no name tables, no stack slots; ${first()} / ${last()} are the
+     first symbol present / the last symbol present before the action;
    - MODEL: feeds the same children to the extracted ActionRefs.run_node (convert -> pick -> traverse ->
      resolve -> slot arithmetic).
    Both logs are printed the way the generated parser's driver prints its log. *)
@@ -55,6 +56,8 @@ let run_case inp =
             let mref = (match kind with
               | 0 -> AR.RNum (nat_of_int (get_int n))
               | 1 -> AR.RName (get_n nm, (let s = get_int sfx in if s < 0 then None else Some (n_of_int s)))
+              | 3 -> AR.RFirst
+              | 4 -> AR.RLast
               | _ -> AR.RLeft) in
             let mprop = (match prop with 0 -> AR.PValue | 1 -> AR.POffset | _ -> AR.PEndoffset) in
             ({ kind; prop; denotes = get_list get_int den }, (mref, mprop))
@@ -122,6 +125,16 @@ let run_case inp =
       let args = SL.map (fun (r, _) ->
         if r.kind = 2 then
           (match r.prop with 0 -> "nil" | 1 -> string_of_int (if is_final then node_off else !cur) | _ -> string_of_int !cur)
+        else if r.kind = 3 || r.kind = 4 then begin
+          (* first() / last(): the first symbol of the rule present in this derivation / the last one present
+             before the action; nil / -1 when there is none yet *)
+          if lead && (r.kind = 3 || !present = []) then bad := "bad:generator-first-or-last-of-a-list-lead";
+          match SL.rev !present with
+          | [] -> if r.prop = 0 then "nil" else "-1"
+          | l ->
+            let (_, e) = if r.kind = 3 then SL.hd l else SL.nth l (SL.length l - 1) in
+            (match r.prop with 0 -> e.v | 1 -> string_of_int e.off | _ -> string_of_int e.fin)
+        end
         else begin
           let here = SL.filter (fun (occ, _) -> SL.mem occ r.denotes) (SL.rev !present) in
           match here, r.prop with
